@@ -738,3 +738,60 @@ def compile_run_cpp(src_text, workdir, name):
     if rc != 0:
         return None, "driver does not compile: " + e[:2500]
     return _run_twice(exe)
+
+
+# ------------------------------------------------------------------------------------------------ the C helper macros (C02)
+STR_PROBE_C = r"""
+#include <stdio.h>
+#include <string.h>
+#include "out.h"
+/* how a C caller builds the `&str` argument of a method of an opaque object: STR(x) must describe exactly the bytes of x up to its NUL */
+static int check(const char *what, struct CSliceRef_u8 s, const char *text) {
+  if (s.data == (const unsigned char *)text && s.len == strlen(text)) return 0;
+  printf("%s:_the_slice_describes_%lu_bytes_for_a_text_of_%lu_bytes;", what, (unsigned long)s.len, (unsigned long)strlen(text));
+  return 1;
+}
+int main(void) {
+  const char *ptr = "hello, boundary \xf0\x9f\xa6\x80";
+  char buf[64]; strcpy(buf, "key-42");
+  char exact[7]; strcpy(exact, "sixsix");
+  int bad = 0;
+  bad += check("STR(string_literal)", STR("literal key"), "literal key");
+  bad += check("STR(const_char_pointer)", STR(ptr), ptr);
+  bad += check("STR(char_array_holding_a_shorter_text)", STR(buf), buf);
+  bad += check("STR(char_array_exactly_filled)", STR(exact), exact);
+  return bad ? 1 : 0;
+}
+"""
+
+
+def str_macro_probe():
+    """'202 |': the REAL tool processes a small C header; a C program then builds `&str` arguments with the STR() helper the tool emits.
+    Returns a harness-format line: 1 = every slice describes its text."""
+    import shutil
+    exe, err, _ = build()
+    if exe is None:
+        return "-9 # fails=bindgen_harness_does_not_build"
+    d = os.path.join(WORK, "strprobe")
+    shutil.rmtree(d, ignore_errors=True)
+    os.makedirs(d)
+    api = {"traits": [{"name": "Store", "methods": [{"name": "get", "recv": "ref", "args": [("slice", "name")], "ret": "u32"}], "rettmp": False}],
+           "objects": [{"trait": 0, "inner": "Box", "ctx": "Arc"}], "groups": [], "config": {}}
+    text, _ = H.render_c_meta(api)
+    open(os.path.join(d, "in.h"), "w").write(text)
+    open(os.path.join(d, "cfg.toml"), "w").write(cfg_toml({}))
+    p = subprocess.run([exe, "auto", os.path.join(d, "cfg.toml"), os.path.join(d, "in.h")], capture_output=True, text=True, env=vlib.ENV)
+    if p.returncode != 0:
+        return "-9 # fails=tool-error:%s" % re.sub(r"\s+", "_", p.stderr.strip())[:160]
+    open(os.path.join(d, "out.h"), "w").write(p.stdout)
+    open(os.path.join(d, "main.c"), "w").write(STR_PROBE_C)
+    c = subprocess.run(["gcc", "-std=c99", "-O0", "-w", "-I", d, "-o", os.path.join(d, "probe"), os.path.join(d, "main.c")], capture_output=True, text=True)
+    if c.returncode != 0:
+        first = [x for x in c.stderr.split("\n") if "error" in x][:1]
+        return "0 # fails=a_C_caller_using_the_STR()_helper_of_the_processed_header_does_not_compile:%s" % re.sub(r"\s+", "_", (first or [c.stderr[:160]])[0])[:200]
+    r = subprocess.run([os.path.join(d, "probe")], capture_output=True, text=True)
+    shutil.rmtree(d, ignore_errors=True)
+    if r.returncode == 0:
+        return "1 # fails=-"
+    return "0 # fails=%s" % (r.stdout.strip().rstrip(";").replace(";", "|") or "probe_died_with_status_%d" % r.returncode)
+
